@@ -12,18 +12,23 @@ TOOL = 4
 
 
 class StepBudget:
-    def __init__(self, budget, allowance=None):
+    def __init__(self, budget, allowance=None, persistent=False):
         """allowance: optional callable -> extra steps earned so far (e.g. proportional to the number of cells translated,
         so that a formula over a legitimately huge area is not mistaken for a hang)"""
         self.budget = budget
         self.allowance = allowance
+        # persistent: keep raising at every further function entry once the budget is spent - observed code with a bare `except:` (the
+        # runtime's IFERROR) swallows the first one and would go on for ever
+        self.persistent = persistent
         self.steps = 0
         self.tripped = False
         self._on = False
 
     def _cb(self, code, offset):
+        if code is StepBudget.__exit__.__code__:
+            return          # the way out must stay open (persistent mode)
         self.steps += 1
-        if self.steps > self.budget and not self.tripped:
+        if self.steps > self.budget and (self.persistent or not self.tripped):
             if self.allowance is not None and self.steps <= self.budget + self.allowance():
                 return
             self.tripped = True
